@@ -4,7 +4,7 @@
 set -u
 export GOFLAGS=-mod=mod GOPROXY=off GOSUMDB=off GOTOOLCHAIN=local
 ID=$1; NAME=${2:-$1}
-WT=/tmp/seed-$ID; OUT=/tmp/seed-$ID-out
+PFX=${SEED_PREFIX:-seed}; WT=/tmp/$PFX-$ID; OUT=/tmp/$PFX-$ID-out
 [ -f $OUT/patch.diff ] && [ -f $OUT/meta.json ] || { echo "$ID: deliverables missing"; exit 1; }
 cd $WT || exit 1
 CMD=$(python3 -c "import json;print(json.load(open('$OUT/meta.json'))['demo']['command'])")
@@ -21,15 +21,15 @@ PY
 git apply $OUT/patch.diff || { echo "$ID: patch does not apply"; exit 1; }
 go build ./... || { echo "$ID: does not build"; exit 1; }
 # 1. demo fails with the change
-bash -c "$CMD" > /tmp/seed-$ID-demo-with.log 2>&1; WITH=$?
+bash -c "$CMD" > /tmp/$PFX-$ID-demo-with.log 2>&1; WITH=$?
 # 2. existing suite passes with the change (demo files skipped by name)
 DEMOS=$(python3 -c "import json;print(' '.join(json.load(open('$OUT/meta.json'))['demo']['files'].values()))")
 for f in $DEMOS; do mv $f $f.off; done
-go test -vet=off -count=1 $(go list ./... | grep -v '/info$') > /tmp/seed-$ID-suite.log 2>&1; SUITE=$?
+go test -vet=off -count=1 $(go list ./... | grep -v '/info$') > /tmp/$PFX-$ID-suite.log 2>&1; SUITE=$?
 for f in $DEMOS; do mv $f.off $f; done
 # 3. demo passes without the change
 git apply -R $OUT/patch.diff
-bash -c "$CMD" > /tmp/seed-$ID-demo-without.log 2>&1; WITHOUT=$?
+bash -c "$CMD" > /tmp/$PFX-$ID-demo-without.log 2>&1; WITHOUT=$?
 git apply $OUT/patch.diff
 echo "$ID: demo_with_change_exit=$WITH demo_without_change_exit=$WITHOUT suite_with_change_exit=$SUITE"
 if [ $WITH -ne 0 ] && [ $WITHOUT -eq 0 ] && [ $SUITE -eq 0 ]; then
@@ -46,5 +46,5 @@ json.dump(m,open('/verif/seeded/%s/meta.json'%name,'w'),indent=1)
 PY
   echo "$ID: CONFIRMED -> /verif/seeded/$NAME"
 else
-  echo "$ID: NOT confirmed (see /tmp/seed-$ID-*.log)"; tail -5 /tmp/seed-$ID-suite.log
+  echo "$ID: NOT confirmed (see /tmp/$PFX-$ID-*.log)"; tail -5 /tmp/$PFX-$ID-suite.log
 fi
